@@ -13,6 +13,14 @@
 (*          is promised afterwards, the behaviour ends)                    *)
 (*   mem    writes applied as the open session sees them                   *)
 (*   disk   writes that are durable (as of the last flush / close)         *)
+(*   extra  1 while the writing process holds a SECOND File object on the  *)
+(*          same path (opened read-write while the first is open); later   *)
+(*          writes go through it.  flush()/close() of a File object is     *)
+(*          promised to make durable what was written THROUGH THAT OBJECT  *)
+(*          (libhdf5 keeps raw-data caches per open object): closing the   *)
+(*          first object while the second has unflushed writes (dirty2)    *)
+(*          promises nothing about those - a named deviation from "closing *)
+(*          any object flushes everything", which the code does not do     *)
 (***************************************************************************)
 EXTENDS Integers, Sequences, TLC, Json
 
@@ -20,9 +28,10 @@ CONSTANTS NWrites,     \* the history has NWrites calls; write NWrites+1 is the 
           MaxDepth,
           MaxKills
 
-VARIABLES mode, mem, disk, kills, tried, act, hist
-vars == << mode, mem, disk, kills, tried, act, hist >>
-View == << mode, mem, disk, kills, tried >>
+VARIABLES mode, mem, disk, kills, tried, extra, dirty2, via, act, hist
+vars == << mode, mem, disk, kills, tried, extra, dirty2, via, act, hist >>
+\* (via: which call made the current content durable - kept in the view so that a kill is explored after each of them)
+View == << mode, mem, disk, kills, tried, extra, dirty2, via >>
 
 Total == NWrites + 1
 CanStep == Len(hist) < MaxDepth
@@ -30,42 +39,59 @@ Log(a) == act' = a /\ hist' = Append(hist, a)
 
 Open(m) == /\ CanStep /\ mode = "closed"
            /\ mode' = m /\ mem' = disk
-           /\ Log([name |-> "Open", m |-> m]) /\ UNCHANGED << disk, kills, tried >>
+           /\ Log([name |-> "Open", m |-> m]) /\ UNCHANGED << disk, kills, tried, extra, dirty2 >> /\ via' = "none"
+
+\* a second File object on the same path in the writing process; later writes go through it
+OpenSecond == /\ CanStep /\ mode = "rw" /\ extra = 0 /\ mem < Total
+              /\ extra' = 1
+              /\ Log([name |-> "OpenSecond"]) /\ UNCHANGED << mode, mem, disk, kills, tried, via, dirty2 >>
+
+\* close() of the older of the two File objects: the session goes on through the other one
+CloseFirst == /\ CanStep /\ mode = "rw" /\ extra = 1
+              /\ extra' = 0 /\ dirty2' = FALSE
+              /\ disk' = IF dirty2 THEN disk ELSE mem
+              /\ via' = "closefirst"
+              /\ Log([name |-> "CloseFirst"]) /\ UNCHANGED << mode, mem, kills, tried >>
 
 \* the next call of the history, in a writable session
 Write == /\ CanStep /\ mode = "rw" /\ mem < Total
          /\ mem' = mem + 1
-         /\ Log([name |-> "Write", i |-> mem + 1]) /\ UNCHANGED << mode, disk, kills, tried >>
+         /\ Log([name |-> "Write", i |-> mem + 1]) /\ UNCHANGED << mode, disk, kills, tried, extra >> /\ via' = "none"
+         /\ dirty2' = (extra = 1)
 
+\* (with two File objects, Flush stands for flush() of both)
 \* the same call attempted in a read-only session: refused, nothing changes
 \* (attempted with the transition's own action, whose effect on the state is known)
 Attempt == /\ CanStep /\ mode = "ro" /\ mem = NWrites /\ ~tried
            /\ tried' = TRUE
-           /\ Log([name |-> "Attempt", i |-> mem + 1]) /\ UNCHANGED << mode, mem, disk, kills >>
+           /\ Log([name |-> "Attempt", i |-> mem + 1]) /\ UNCHANGED << mode, mem, disk, kills, extra, via, dirty2 >>
 
 Flush == /\ CanStep /\ mode = "rw" /\ disk # mem
          /\ disk' = mem
-         /\ Log([name |-> "Flush"]) /\ UNCHANGED << mode, mem, kills, tried >>
+         /\ via' = "flush" /\ dirty2' = FALSE
+         /\ Log([name |-> "Flush"]) /\ UNCHANGED << mode, mem, kills, tried, extra >>
 
-Close == /\ CanStep /\ mode \in { "rw", "ro" }
+Close == /\ CanStep /\ mode \in { "rw", "ro" } /\ extra = 0
          /\ mode' = "closed" /\ disk' = mem
-         /\ Log([name |-> "Close"]) /\ UNCHANGED << mem, kills, tried >>
+         /\ Log([name |-> "Close"]) /\ UNCHANGED << mem, kills, tried, extra, via, dirty2 >>
 
 \* SIGKILL of the process that holds the file
 Kill == /\ CanStep /\ mode \in { "rw", "ro" } /\ kills < MaxKills
         /\ kills' = kills + 1
         /\ mode' = IF mem = disk THEN "closed" ELSE "dead"
-        /\ Log([name |-> "Kill", clean |-> (mem = disk)]) /\ UNCHANGED << mem, disk, tried >>
+        /\ extra' = 0 /\ dirty2' = FALSE
+        /\ Log([name |-> "Kill", clean |-> (mem = disk)]) /\ UNCHANGED << mem, disk, tried, via >>
 
-Init == mode = "closed" /\ mem = 0 /\ disk = 0 /\ kills = 0 /\ tried = FALSE
+Init == mode = "closed" /\ mem = 0 /\ disk = 0 /\ kills = 0 /\ tried = FALSE /\ extra = 0 /\ dirty2 = FALSE /\ via = "none"
         /\ act = [name |-> "Init"] /\ hist = << >>
-Next == Open("rw") \/ Open("ro") \/ Write \/ Attempt \/ Flush \/ Close \/ Kill
+Next == Open("rw") \/ Open("ro") \/ Write \/ Attempt \/ Flush \/ Close \/ Kill \/ OpenSecond \/ CloseFirst
 Spec == Init /\ [][Next]_vars
 
 (***************************************************************************)
 (* properties                                                              *)
 (***************************************************************************)
-TypeOK == mode \in { "closed", "rw", "ro", "dead" } /\ mem \in 0..Total /\ disk \in 0..Total /\ disk <= mem
+TypeOK == /\ mode \in { "closed", "rw", "ro", "dead" } /\ mem \in 0..Total /\ disk \in 0..Total /\ disk <= mem
+          /\ extra \in 0..1 /\ (extra = 1 => mode = "rw") /\ dirty2 \in BOOLEAN /\ (dirty2 => extra = 1)
 
 \* C11: a read-only session never changes what is on disk, and sees what is on disk
 ReadOnlyNeverChanges == [][mode = "ro" => disk' = disk]_vars
@@ -74,6 +100,8 @@ ReadOnlySeesDisk == mode = "ro" => mem = disk
 \* C17: a kill right after flush() / close() returned loses nothing; what a later session sees is
 \* exactly the state at that moment
 KillAfterFlushLosesNothing == [][(act'.name = "Kill" /\ mem = disk) => (mode' = "closed" /\ disk' = mem)]_vars
+\* close() of a File object makes durable everything written so far, unless another object holds unflushed writes
+CloseMakesDurable == [][(act'.name = "Close" \/ (act'.name = "CloseFirst" /\ ~dirty2)) => disk' = mem]_vars
 \* C02: opening shows what was there when the file was closed (or last flushed before a clean kill)
 OpenShowsDisk == [][act'.name = "Open" => mem' = disk]_vars
 \* durable content only ever grows with flush / close
